@@ -408,6 +408,7 @@ func (in *Interp) exec(fr *Frame, ins ssa.Instruction) {
 		args, fnv := in.prepareCall(fr, &x.Call)
 		saved := in.curGor
 		in.nextGor++
+		in.spawnVC(in.nextGor)
 		in.curGor = in.nextGor
 		in.invoke(fnv, args, &x.Call, fr)
 		in.curGor = saved
@@ -531,6 +532,8 @@ func (in *Interp) exec(fr *Frame, ins ssa.Instruction) {
 			panic(unsupported{"channel send under symbolic guard"})
 		}
 		ch.queue = append(ch.queue, in.get(fr, x.X))
+		ch.vcs = append(ch.vcs, in.curVC())
+		in.tickVC()
 		ch.sends++
 		in.sendTotal++
 	default:
@@ -803,6 +806,11 @@ func (in *Interp) unop(fr *Frame, x *ssa.UnOp) Value {
 		}
 		v := ch.queue[0]
 		ch.queue = ch.queue[1:]
+		if len(ch.vcs) > 0 {
+			in.acquireVC(ch.vcs[0])
+			ch.vcs = ch.vcs[1:]
+			in.tickVC()
+		}
 		ch.recvs++
 		in.recvTotal++
 		if x.CommaOk {
